@@ -260,9 +260,34 @@ var eventBuf *bufio.Writer
 
 func Event(format string, args ...any) {
 	if eventBuf != nil {
-		fmt.Fprintf(eventBuf, format+"\n", args...)
+		fmt.Fprintf(eventBuf, format+" digest=%016x\n", append(args, caseDigest)...)
 	}
 }
+
+// Note folds observable behaviour of the current case (outcomes, traces,
+// schedules) into the case digest that the determinism self-test compares.
+// It costs nothing unless an event log was requested.
+var caseDigest uint64
+
+func Note(parts ...string) {
+	if eventBuf == nil {
+		return
+	}
+	h := fnv.New64a()
+	var b [8]byte
+	for i := range b {
+		b[i] = byte(caseDigest >> (8 * i))
+	}
+	h.Write(b[:])
+	for _, p := range parts {
+		h.Write([]byte(p))
+		h.Write([]byte{0})
+	}
+	caseDigest = h.Sum64()
+}
+
+// Noting reports whether Note does anything (lets worlds skip building strings).
+func Noting() bool { return eventBuf != nil }
 
 func Main(w World, cfg Config) {
 	flag.Parse()
@@ -314,6 +339,7 @@ func workerMain(w World, cfg Config) int {
 		cs := CaseSeed(*fSeed, i)
 		emit(out, caseMsg{T: "start", Case: i, Seed: cs})
 		beat()
+		caseDigest = 0
 		t := tape.New(cs)
 		v := w.RunCase(t, st)
 		n++
